@@ -534,6 +534,15 @@ func VerifyObjectCopyAccess(ctx context.Context, be backend.Backend, copySource 
 	if !found {
 		return s3err.GetAPIError(s3err.ErrInvalidCopySource)
 	}
+	// the resource is the object itself, not "object?versionId=...", and
+	// reading a specific version needs s3:GetObjectVersion
+	srcAction := GetObjectAction
+	if obj, versionId, ok := strings.Cut(srcObject, "?versionId="); ok {
+		srcObject = obj
+		if versionId != "" {
+			srcAction = GetObjectVersionAction
+		}
+	}
 
 	// Get source bucket ACL
 	srcBucketACLBytes, err := be.GetBucketAcl(ctx, &s3.GetBucketAclInput{Bucket: &srcBucket})
@@ -553,7 +562,7 @@ func VerifyObjectCopyAccess(ctx context.Context, be backend.Backend, copySource 
 		Acc:           opts.Acc,
 		Bucket:        srcBucket,
 		Object:        srcObject,
-		Action:        GetObjectAction,
+		Action:        srcAction,
 	}); err != nil {
 		return err
 	}
